@@ -402,6 +402,23 @@ func runMBBacklogFirst(c *core.Ctx) {
 			c.Check(ok, fmt.Sprintf("%s.ReadValue:return#%d-recorded", tk, i+1), r.Pos(), "the returned message was appended to the in-progress list on this path",
 				"ReadValue returns a message without recording it as in progress: if the section aborts the message is lost instead of being redelivered")
 		}
+		// batch conservation: a record taken off the channel carries a slice of messages; all of them must end up in the
+		// backlog / in-progress lists (whole slice, or head + tail), in every method of the type that receives from the channel
+		if st, ok := chanElemStruct(ch); ok {
+			for _, m := range e.Ix.MethodsOf(t) {
+				mg := e.Graph(m)
+				mi := m.Pkg.Info
+				for j, r := range mg.FindAtoms(func(a ast.Node) bool {
+					u, ok := a.(*ast.UnaryExpr)
+					return ok && u.Op == token.ARROW && an.SelectedField(mi, u.X) == ch
+				}) {
+					key := fmt.Sprintf("%s.%s:receive#%d-batch-conserved", tk, m.Obj.Name(), j+1)
+					whole, head, tail := batchPieces(mg, mi, r, st, backlog, inProg)
+					c.Check(whole || (head && tail), key, r.Pos(), "every message of the received batch is kept (whole slice, or first element and the rest)",
+						"a batch of messages is taken off the delivery channel but not all of its messages are stored in the backlog / in-progress lists on every path: the remaining messages of that critical section are lost")
+				}
+			}
+		}
 		// backlog branch pops from the front
 		pops := g.FindAtoms(func(a ast.Node) bool {
 			as, ok := a.(*ast.AssignStmt)
@@ -818,4 +835,118 @@ func runMBLen(c *core.Ctx) {
 			c.Check(okG, tk+".length:receive-only-if-backlog-empty", fn.Pos(), "a record is pulled only when the backlog is empty", "length() pulls a record from the channel although the backlog is not empty: appended behind? order of pending messages could change")
 		}
 	}
+}
+
+// chanElemStruct: the channel field carries structs with exactly one slice field (a batch record).
+func chanElemStruct(ch *types.Var) (*types.Var, bool) {
+	ct, ok := ch.Type().Underlying().(*types.Chan)
+	if !ok {
+		return nil, false
+	}
+	st, ok := ct.Elem().Underlying().(*types.Struct)
+	if !ok {
+		return nil, false
+	}
+	var sl *types.Var
+	for i := 0; i < st.NumFields(); i++ {
+		if _, ok := st.Field(i).Type().Underlying().(*types.Slice); ok {
+			if sl != nil {
+				return nil, false
+			}
+			sl = st.Field(i)
+		}
+	}
+	return sl, sl != nil
+}
+
+// batchPieces classifies which parts of the batch received at atom r are appended to the backlog / in-progress fields
+// on every path from the receive to the function's normal exits.
+func batchPieces(g *an.Graph, info *types.Info, r ast.Node, sliceFld, backlog, inProg *types.Var) (whole, head, tail bool) {
+	// the record variable, if the receive is bound to one
+	var rec types.Object
+	switch p := g.Parent(r).(type) {
+	case *ast.AssignStmt:
+		if len(p.Lhs) == 1 {
+			rec = an.ObjOf(info, p.Lhs[0])
+		}
+	}
+	isBatch := func(x ast.Expr) bool {
+		sel, ok := an.Unparen(x).(*ast.SelectorExpr)
+		if !ok || an.SelectedField(info, sel) != sliceFld {
+			return false
+		}
+		base := an.Unparen(sel.X)
+		if rec != nil && an.ObjOf(info, base) == rec {
+			return true
+		}
+		return base == r.(ast.Expr) || an.Unparen(base) == r.(ast.Expr)
+	}
+	heads := map[types.Object]bool{}
+	g.AllAtoms(func(a ast.Node) {
+		as, ok := a.(*ast.AssignStmt)
+		if !ok || len(as.Lhs) != 1 || len(as.Rhs) != 1 {
+			return
+		}
+		if ix, ok := an.Unparen(as.Rhs[0]).(*ast.IndexExpr); ok && isBatch(ix.X) {
+			if tv := info.Types[ix.Index]; tv.Value != nil && tv.Value.ExactString() == "0" {
+				if o := an.ObjOf(info, as.Lhs[0]); o != nil {
+					heads[o] = true
+				}
+			}
+		}
+	})
+	classify := func(a ast.Node) (w, h, t bool) {
+		as, ok := a.(*ast.AssignStmt)
+		if !ok || len(as.Lhs) != 1 || len(as.Rhs) != 1 {
+			return
+		}
+		f := an.SelectedField(info, as.Lhs[0])
+		if f != backlog && f != inProg {
+			return
+		}
+		call, ok := an.Unparen(as.Rhs[0]).(*ast.CallExpr)
+		if !ok || !an.IsBuiltin(info, call, "append") || len(call.Args) < 2 || an.SelectedField(info, call.Args[0]) != f {
+			return
+		}
+		for _, arg := range call.Args[1:] {
+			switch x := an.Unparen(arg).(type) {
+			case *ast.SliceExpr:
+				if isBatch(x.X) && x.High == nil && x.Low != nil && call.Ellipsis.IsValid() {
+					if tv := info.Types[x.Low]; tv.Value != nil && tv.Value.ExactString() == "1" {
+						t = true
+					}
+				}
+			case *ast.IndexExpr:
+				if isBatch(x.X) {
+					if tv := info.Types[x.Index]; tv.Value != nil && tv.Value.ExactString() == "0" {
+						h = true
+					}
+				}
+			default:
+				if isBatch(arg) && call.Ellipsis.IsValid() {
+					w = true
+				}
+				if o := an.ObjOf(info, arg); o != nil && heads[o] {
+					h = true
+				}
+			}
+		}
+		return
+	}
+	must := func(sel func(w, h, t bool) bool) bool {
+		ok, _ := g.MustPass(r, func(a ast.Node) bool { return sel(classify(a)) }, nil)
+		return ok
+	}
+	// the receive may be nested inside the appending statement itself (append(backlog, (<-ch).values...))
+	if at := g.Parent(r); at != nil {
+		for n := ast.Node(r); n != nil; n = g.Parent(n) {
+			if w, h, t := classify(n); w || h || t {
+				return w, h, t
+			}
+			if _, isStmt := n.(ast.Stmt); isStmt {
+				break
+			}
+		}
+	}
+	return must(func(w, _, _ bool) bool { return w }), must(func(_, h, _ bool) bool { return h }), must(func(_, _, t bool) bool { return t })
 }
